@@ -182,57 +182,64 @@ def run(tier):
     rep.count("file-creating call sites in main", nsites)
     rep.ob("C18.nowrite|sites", nsites >= 2, "at least the two writer calls were recognised as file-creating (%d)" % nsites, kind="unprovable",
            nontrivial=False)
-    # inside each writer: File::create dominated by the success edge of hex generation
+    # inside each writer (seen with the local helpers it uses, analysis/writers.py): the file is opened only after hex generation
+    # succeeded, every I/O result propagates, buffered writers are flushed, and the right text is written
+    import writers as W
     for w, field, fname in (("writer::write_code_hex", 0, "code"), ("writer::write_eeprom_hex", 1, "eeprom")):
         wb = P.body.get(w)
         if wb is None:
             rep.unprovable("C18.anchor|%s|body" % w, "%s not found" % w)
             continue
+        fam = W.family(P, w)
         widom = G.dominators(wb)
         gen = [(bb, t) for bb, t, n, tg in P.call_sites(w) if any(x.startswith("writer::generate_hex") for x in tg)]
-        creates = [(bb, t) for bb, t, n, tg in P.call_sites(w) if FILE_CREATORS.match(MU.callee_names(t)[1]) and not wb["blocks"][bb]["cleanup"]]
+        creates = W.calls_in(P, fam, lambda rp, full: bool(FILE_CREATORS.match(rp)))
         if len(gen) != 1 or not creates:
             rep.unprovable("C18.nowrite|%s" % w, "generation call / file creation not recognised in %s (%d/%d)" % (w, len(gen), len(creates)))
+            continue
+        e = MU.result_edges(wb, gen[0][0])
+        okb = e["ok"] if e else None
+        for k_, cbb, ct, rp_ in creates:
+            site = W.entry_site_of(P, fam, w, k_, cbb)
+            dom = okb is not None and site is not None and G.dominates(widom, okb, site)
+            rep.ob("C18.nowrite|%s|create-after-generate" % w, dom,
+                   "%s creates the output file only after hex generation succeeded" % w if dom else
+                   "%s can create the output file although hex generation failed or has not run" % w,
+                   loc=loc_of(P.body[k_]["blocks"][cbb]["tspan"]))
+        # every I/O step's failure is propagated (`?`, match, or returned to a caller that does so)
+        ios = W.calls_in(P, fam, lambda rp, full: bool(FILE_CREATORS.match(rp)) or W.is_write(rp) or rp.endswith("Write>::flush") or rp == "std::io::Write::flush")
+        for k_, bb_, t_, rp_ in ios:
+            okp = W.propagated(P, fam, k_, bb_)
+            rep.ob("C18.io-error|%s|%s" % (w, rp_), okp,
+                   "result of %s (in %s) is inspected: a failure propagates" % (rp_, k_.split("::")[-1]) if okp else
+                   "result of %s in %s is dropped: an I/O failure would go unreported" % (rp_, k_),
+                   loc=loc_of(P.body[k_]["blocks"][bb_]["tspan"]))
+        # a buffering writer reports write errors only when flushed: it needs an explicit, checked flush
+        wr = W.calls_in(P, fam, lambda rp, full: W.is_write_all(rp))
+        for k_, bb_, t_, rp_ in wr:
+            g_ = t_["callee"].get("rgenerics") or t_["callee"].get("generics") or []
+            recv_ty = P.tys(k_, g_[0]) if g_ else MU.callee_names(t_)[0]
+            if re.search(r"BufWriter|LineWriter", recv_ty + MU.callee_names(t_)[0]):
+                fl = [x for x in ios if x[3].endswith("flush") and W.propagated(P, fam, x[0], x[1])]
+                rep.ob("C18.io-error|%s|flush" % w, bool(fl), "the buffered writer is flushed explicitly and the result is checked" if fl else
+                       "%s writes through a buffering writer (%s) that is never flushed explicitly: the data is written when the writer is dropped and an I/O error at that point is discarded — the tool reports success although nothing could be written" % (w, recv_ty[:60]),
+                       loc=loc_of(P.body[k_]["blocks"][bb_]["tspan"]))
+        # content: the bytes written come from the right field of GenerateResult
+        if wr:
+            gr_fields = set()
+            for k_, bb_, t_, rp_ in wr:
+                consts, calls, places = W.slice_family(P, fam, k_, [t_["args"][1]])
+                for fk, pl in places:
+                    fs = MU.proj_fields(pl["proj"])
+                    if fs and cr_is_generate_result(P, fk, P.body[fk], pl["local"]):
+                        gr_fields.add(fs[-1])
+            okc = gr_fields == {field}
+            rep.ob("C18.content|%s|field" % w, okc,
+                   "%s writes the %s text of the generated result" % (w, fname) if okc else
+                   "%s writes field(s) %s of the generated result, expected only .%s" % (w, sorted(gr_fields), fname),
+                   loc=loc_of(P.body[wr[0][0]]["blocks"][wr[0][1]]["tspan"]))
         else:
-            e = MU.result_edges(wb, gen[0][0])
-            okb = e["ok"] if e else None
-            for cbb, ct in creates:
-                dom = okb is not None and G.dominates(widom, okb, cbb)
-                rep.ob("C18.nowrite|%s|create-after-generate" % w, dom,
-                       "%s creates the output file only after hex generation succeeded" % w if dom else
-                       "%s can create the output file although hex generation failed or has not run" % w,
-                       loc=loc_of(wb["blocks"][cbb]["tspan"]))
-            # every I/O step's failure is propagated (`?`): each write/create result reaches a Try::branch or is matched
-            for bb, t, n, tg in P.call_sites(w):
-                full, rp = MU.callee_names(t)
-                if wb["blocks"][bb]["cleanup"]:
-                    continue
-                if FILE_CREATORS.match(rp) or rp in ("std::io::Write::write_all", "<std::fs::File as std::io::Write>::write", "std::io::Write::write"):
-                    e2 = MU.result_edges(wb, bb)
-                    rep.ob("C18.io-error|%s|%s" % (w, rp), e2 is not None,
-                           "result of %s in %s is inspected (failure propagates)" % (rp, w) if e2 else
-                           "result of %s in %s is dropped: an I/O failure would go unreported" % (rp, w),
-                           loc=loc_of(wb["blocks"][bb]["tspan"]))
-            # content: the bytes written come from the right field of GenerateResult, which comes from the right image
-            wr = [(bb, t) for bb, t, n, tg in P.call_sites(w) if MU.callee_names(t)[1] in ("std::io::Write::write_all",)]
-            okc = False
-            if wr:
-                locs, consts, calls, places = MU.backward_slice(wb, [wr[0][1]["args"][1]])
-                gen_dest = gen[0][1]["dest"]["local"]
-                fields = set()
-                for p in places:
-                    fs = MU.proj_fields(p["proj"])
-                    if fs:
-                        fields.add((p["local"], fs[-1]))
-                # the GenerateResult local is the Continue payload of generate_hex(..)?; look for a field read .<field>
-                gr_fields = {f for (l, f) in fields if cr_is_generate_result(P, w, wb, l)}
-                okc = gr_fields == {field}
-                rep.ob("C18.content|%s|field" % w, okc,
-                       "%s writes the %s text of the generated result" % (w, fname) if okc else
-                       "%s writes field(s) %s of the generated result, expected only .%s" % (w, sorted(gr_fields), fname),
-                       loc=loc_of(wb["blocks"][wr[0][0]]["tspan"]))
-            else:
-                rep.unprovable("C18.content|%s|field" % w, "no write_all call found in %s" % w)
+            rep.unprovable("C18.content|%s|field" % w, "no write_all call found in %s or the helpers it calls" % w)
     # generate_hex: code comes from br.code and eeprom from br.eeprom
     gk = "writer::generate_hex"
     gb = P.body.get(gk)
